@@ -279,6 +279,26 @@ package plush
 
 //@ typeinv (f *userFunction) = f.Block != nil && forall i int :: 0 <= i && i < len(f.Parameters) ==> f.Parameters[i] != nil
 
+// ---- C16: the value of a call ---------------------------------------------------------------------
+// A body that reaches `return v` hands back v wrapped in return objects (one per enclosing block, each
+// holding what that block had produced so far plus the inner object). fval is the documented value of
+// the call: v itself when nothing but the return was produced on the way (every wrapper holds exactly
+// one element), otherwise everything the body produced.
+//@ spec rochain(r any) bool
+//@ spec roleaf(r any) any
+//@ axiom rochain0: forall r any :: !is(r, "returnObject") ==> rochain(r) && roleaf(r) == r
+//@ axiom rochainS: forall r any :: is(r, "returnObject") ==> (rochain(r) <==> (len(unbox(r, "returnObject").Value) == 1 && rochain(unbox(r, "returnObject").Value[0])))
+//@ axiom roleafS: forall r any :: is(r, "returnObject") && len(unbox(r, "returnObject").Value) == 1 ==> roleaf(r) == roleaf(unbox(r, "returnObject").Value[0])
+//@ spec fval(r any) any = ite(is(r, "returnObject") && rochain(r), roleaf(r), r)
+
+//@ func functionValue
+//@ ensures def: result == fval(res)
+// values of the unexported type *userFunction are created only by the evaluator, never nil (same
+// assumption as on reflect.Value.Interface): definitional, listed in the evidence
+//@ ensures def_ufn: is(result, "*userFunction") ==> pay(result) != 0
+//@ assigns nothing
+//@ loop 1: invariant is(res, "returnObject") && rochain(res) == rochain(box(cur)) && (rochain(res) ==> roleaf(res) == roleaf(box(cur)))
+
 // C16: the arguments are evaluated in the CALLER's scope (loop 1 runs with c.ctx == old(c.ctx)), then a
 // fresh child scope is created and each parameter is bound to the corresponding value (loop 2), then the
 // body runs in that scope; the caller's scope is restored on every exit.
@@ -290,6 +310,9 @@ package plush
 //@ ensures restored: c.ctx == old(c.ctx) && (c.curStmt == nil || pay(c.curStmt) != 0)
 //@ ensures stmtkept: err == nil ==> c.curStmt == old(c.curStmt)
 //@ ensures arity: len(args) < len(node.Parameters) ==> err != nil
+// C16: the call yields the value of the return the body reached (fval of what the body handed back)
+//@ ghost bodyres = callresult after evalBlockStatement#1
+//@ ensures value: err == nil ==> calls(evalBlockStatement) == 1 && result == fval(bodyres)
 // C16: the evaluated argument values are held in storage of this call only
 //@ owned vals
 // C09/C16: the body runs in a child scope that this very call created (so nothing it binds can reach
